@@ -34,7 +34,8 @@ class LTLExplainer(LtlAstVisitor):
 
     def visitVariable(self, element, args):
         intervals = args[0]
-        self.explanations[element.name] = intervals
+        # a variable can occur several times: its explanations accumulate
+        self.explanations[element.name] = interval_union(self.explanations.get(element.name, []) + intervals)
 
     def visitAddition(self, element, args):
         intervals = args[0]
